@@ -212,6 +212,47 @@ fn run_case(c: &Case) -> Option<(String, String)> {
                 return Some(("report:Total Errors".into(), format!("report shows Total Errors {:?}, expected {n}", row("Total Errors"))));
             }
         }
+        // the other rows of the report: the whole cell up to the next column (two blanks) or the table border
+        let cell = |name: &str| -> Option<String> {
+            out.lines().find(|l| l.contains(name)).map(|l| {
+                let rest = l.split(name).nth(1).unwrap_or("").trim_start();
+                let end = rest.find("  ").unwrap_or(rest.len());
+                rest[..end].trim_matches(|ch| ch == '│' || ch == '|' || ch == ' ').to_string()
+            })
+        };
+        let nums = |s: &str| -> Vec<u64> { s.split(|ch: char| !ch.is_ascii_digit()).filter(|x| !x.is_empty()).filter_map(|x| x.parse().ok()).collect() };
+        let want_links: Vec<u64> = e.links.clone();
+        if cell("Links observed").map(|v| nums(&v)) != Some(want_links.clone()) {
+            return Some(("report:Links observed".into(), format!("report shows links {:?}, the input has {:?}", cell("Links observed"), want_links)));
+        }
+        let mut want_fees = e.fee_ids.clone();
+        want_fees.sort();
+        let mut got_fees = cell("FEE IDs seen").map(|v| nums(&v)).unwrap_or_default();
+        got_fees.sort();
+        if got_fees != want_fees {
+            return Some(("report:FEE IDs seen".into(), format!("report shows FEE IDs {:?}, the input has {:?}", cell("FEE IDs seen"), want_fees)));
+        }
+        if cell("Run Trigger Type").map(|v| v.to_lowercase()) != Some(format!("{:#x}", e.run_trigger)) {
+            return Some(("report:Run Trigger Type".into(), format!("report shows run trigger type {:?}, the first RDH has {:#x}", cell("Run Trigger Type"), e.run_trigger)));
+        }
+        if cell("RDH Version") != Some(e.rdh_version.to_string()) {
+            return Some(("report:RDH Version".into(), format!("report shows RDH version {:?}, the input has {}", cell("RDH Version"), e.rdh_version)));
+        }
+        if cell("Data Format") != Some(e.data_format.to_string()) {
+            return Some(("report:Data Format".into(), format!("report shows data format {:?}, the input has {}", cell("Data Format"), e.data_format)));
+        }
+        if c.mode[0] == "check" && c.filter.is_none() && cell("Total HBFs") != Some(e.hbfs.to_string()) {
+            return Some(("report:Total HBFs".into(), format!("report shows Total HBFs {:?}, the input has {} stop-bit packets", cell("Total HBFs"), e.hbfs)));
+        }
+        if c.filter.is_some() {
+            // FILTER STATS block: the RDHs row there is the number of matching packets
+            let frow = out.lines().find(|l| l.contains("RDHs  ") && !l.contains("Total RDHs") && !l.contains("RDHs:")).map(|l| nums(l.split("RDHs").nth(1).unwrap_or("")).first().copied());
+            if let Some(got) = frow {
+                if got != Some(e.rdhs_filtered) {
+                    return Some(("report:Filter RDHs".into(), format!("filter statistics show {:?} RDHs, {} packets match the filter", got, e.rdhs_filtered)));
+                }
+            }
+        }
     }
     None
 }
@@ -374,7 +415,7 @@ pub fn run(tier: Tier) -> i32 {
     rep.cov("evaluations", json!(cases.len()));
     rep.cov("distinct_nontrivial", json!(nontrivial));
     rep.cov("exhaustive", json!(true));
-    rep.cov("rule", json!("streams {arbitrary headers over 3 interleaved links with 1/5/12(big payloads, total > 2^16)/100/101(/201) packets; every RDH sequence of length <= 2 (quick) / 3 (thorough) over 48 symbols {2 links} x {2 FEE ids, independent of the link} x {stop 0/1} x {6 trigger words: none, all 20 counted bits, the even / odd halves, HB+orbit+TF, PhT+gap2}, modes / filters / formats / sources rotating; 6 conforming witnesses; witnesses with 1/3/21 RDH sanity faults} x 9 modes (5 checks, 3 views, filtered writing) x filters (none, present link/FEE/stave, absent link) x {JSON, TOML} x {file, stdin}; statistics file fields and report rows vs the independent calculator. non-trivial = a filter is active or errors are expected"));
+    rep.cov("rule", json!("streams {arbitrary headers over 3 interleaved links with 1/5/12(big payloads, total > 2^16)/100/101(/201) packets; every RDH sequence of length <= 2 (quick) / 3 (thorough) over 48 symbols {2 links} x {2 FEE ids, independent of the link} x {stop 0/1} x {6 trigger words: none, all 20 counted bits, the even / odd halves, HB+orbit+TF, PhT+gap2}, modes / filters / formats / sources rotating; 6 conforming witnesses; witnesses with 1/3/21 RDH sanity faults} x 9 modes (5 checks, 3 views, filtered writing) x filters (none, present link/FEE/stave, absent link) x {JSON, TOML} x {file, stdin}; statistics file fields and report rows (Total RDHs, Total Errors, Links observed, FEE IDs seen, Run Trigger Type, RDH Version, Data Format, Total HBFs, filter RDHs) vs the independent calculator. non-trivial = a filter is active or errors are expected"));
     rep.sample(json!({"expected_fields": ["rdhs_seen", "rdhs_filtered", "payload_size", "links (sorted)", "fee_id (first seen)", "rdh_version", "data_format", "system_id", "run_trigger_type", "hbfs_seen", "layer_staves_seen", "trigger_stats.*", "total_errors", "unique_error_codes"]}));
     rep.assume("run trigger type: the raw value is compared, its textual description is not");
     rep.finish()
